@@ -24,9 +24,30 @@
    not constrained, only each of the two sequences. *)
 EXTENDS Membership
 
-CONSTANTS SigBug   \* "none"; other values break the model (vacuity guards of the laws below)
+CONSTANTS SigBug,  \* "none"; other values break the model (vacuity guards of the laws below)
+          NB       \* number of connection-container slots
 
-SigOps == {"sig_ctor", "sig_move_ctor", "sig_move_assign", "sig_dtor", "connect", "disconnect"}
+Boxes == 1..NB
+
+(* Who owns a connection.  connect() "returns an fcppt::signal::auto_connection, which is a
+   unique pointer to a connection"; "The callback function is disconnected from the signal when
+   the connection object dies" (signal.doxygen).  The connection object is not movable
+   (FCPPT_NONMOVABLE(connection)), its owner is: an auto_connection can be move-constructed and
+   move-assigned (fcppt::unique_ptr), put into an fcppt::signal::auto_connection_container
+   (a std::vector of auto_connection: examples/signal/connection.cpp "pass a container of
+   connections") or into an fcppt::signal::optional_auto_connection.  Connection ids (Elems) name
+   connection objects; holder slots (also indexed by Elems) and containers (Boxes) own them:
+     connect(x, l)       creates connection x, owned by holder x
+     disconnect(x)       holder x drops its connection: it dies
+     hold_move(x, x2)    empty holder x is move-constructed from holder x2: nothing dies, nothing
+                         is called; membership of every signal is unchanged
+     hold_assign(x, x2)  holder x = std::move(holder x2): the connection x owned dies
+     box_ctor(b) / box_push(b, x) / box_dtor(b): a container takes over holder x's connection;
+                         when the container dies all its connections die together (the order in
+                         which a std::vector destroys its elements is not specified: the
+                         unregister callbacks are compared as a multiset). *)
+SigOps == {"sig_ctor", "sig_move_ctor", "sig_move_assign", "sig_dtor", "connect", "disconnect",
+           "hold_move", "hold_assign", "box_ctor", "box_push", "box_dtor"}
 
 ToList(a) ==
   [a EXCEPT !.op = CASE a.op = "sig_ctor" -> "list_ctor"
@@ -34,40 +55,82 @@ ToList(a) ==
                      [] a.op = "sig_move_assign" -> "list_move_assign"
                      [] a.op = "sig_dtor" -> "list_dtor"
                      [] a.op = "connect" -> "elem_ctor"
-                     [] a.op = "disconnect" -> "elem_dtor"
                      [] OTHER -> "none"]
 
-(* sx.comb[l]: signal l has a usable combiner; sx.unreg[e]: how often the unregister
-   callback of the connection in slot e has run since it was connected *)
-EmptyX == [comb |-> [L \in Lists |-> FALSE], unreg |-> [e \in Elems |-> 0]]
+(* sx.comb[l]: signal l has a usable combiner; sx.unreg[e]: how often the unregister callback
+   of connection e has run since it was connected; sx.hold[h]: the connection holder h owns
+   (0 = none); sx.box[b]: the connections container b owns, sx.blive[b]: the container exists *)
+EmptyX == [comb |-> [L \in Lists |-> FALSE], unreg |-> [e \in Elems |-> 0],
+           hold |-> [h \in Elems |-> 0], box |-> [b \in Boxes |-> <<>>],
+           blive |-> [b \in Boxes |-> FALSE]]
 
-SPre(m, a) == a.op \in SigOps /\ Pre(m, ToList(a))
-SEff(m, a) == Eff(m, ToList(a))
+(* the connections that die in an operation *)
+Dying(x, a) ==
+  CASE a.op \in {"disconnect", "hold_assign"} -> <<x.hold[a.x]>>
+    [] a.op = "box_dtor" ->
+         IF SigBug = "box_dtor_first_only" /\ x.box[a.b] # <<>> THEN <<x.box[a.b][1]>> ELSE x.box[a.b]
+    [] OTHER -> <<>>
 
-(* the unregister callbacks an operation runs, in order (unr: unregister flavour) *)
-UnregLog(a, unr) ==
-  IF a.op = "disconnect" /\ unr
-  THEN (IF SigBug = "unreg_twice" THEN <<a.x, a.x>> ELSE <<a.x>>)
-  ELSE <<>>
+SPre(m, x, a) ==
+  LET full(h) == h \in Elems /\ x.hold[h] # 0
+      free(h) == h \in Elems /\ x.hold[h] = 0
+  IN CASE a.op \in {"sig_ctor", "sig_move_ctor", "sig_move_assign", "sig_dtor"} -> Pre(m, ToList(a))
+       [] a.op = "connect" -> free(a.x) /\ ~m.elive[a.x] /\ a.l \in Lists /\ m.llive[a.l]
+       [] a.op = "disconnect" -> full(a.x)
+       [] a.op = "hold_move" -> free(a.x) /\ full(a.x2)
+       [] a.op = "hold_assign" -> full(a.x) /\ full(a.x2) /\ a.x # a.x2
+       [] a.op = "box_ctor" -> a.b \in Boxes /\ ~x.blive[a.b]
+       [] a.op = "box_push" -> a.b \in Boxes /\ x.blive[a.b] /\ full(a.x)
+       [] a.op = "box_dtor" -> a.b \in Boxes /\ x.blive[a.b]
+       [] OTHER -> FALSE
+
+RECURSIVE KillAll(_, _)
+KillAll(m, cs) ==
+  IF cs = <<>> THEN m
+  ELSE KillAll(Eff(m, [BaseOp EXCEPT !.op = "elem_dtor", !.x = Head(cs)]), Tail(cs))
+
+SEff(m, x, a) ==
+  IF a.op \in {"sig_ctor", "sig_move_ctor", "sig_move_assign", "sig_dtor", "connect"}
+  THEN Eff(m, ToList(a))
+  ELSE KillAll(m, Dying(x, a))
+
+(* the unregister callbacks an operation runs (unr: unregister flavour) *)
+UnregLog(x, a, unr) ==
+  IF unr THEN (IF SigBug = "unreg_twice" THEN Dying(x, a) \o Dying(x, a) ELSE Dying(x, a)) ELSE <<>>
+
+Count(q, e) == Cardinality({i \in DOMAIN q : q[i] = e})
 
 XEff(x, a, unr) ==
   LET c == x.comb
-      ul == UnregLog(a, unr)
-      cnt(e) == Cardinality({i \in DOMAIN ul : ul[i] = e})
+      ul == UnregLog(x, a, unr)
       c2 == CASE a.op = "sig_ctor" -> [c EXCEPT ![a.l] = TRUE]
               [] a.op \in {"sig_move_ctor", "sig_move_assign"} -> [c EXCEPT ![a.l] = c[a.l2], ![a.l2] = FALSE]
               [] a.op = "sig_dtor" -> [c EXCEPT ![a.l] = FALSE]
               [] OTHER -> c
       u2 == IF a.op = "connect" THEN [x.unreg EXCEPT ![a.x] = 0]
-            ELSE [e \in Elems |-> x.unreg[e] + cnt(e)]
-  IN [comb |-> c2, unreg |-> u2]
+            ELSE [e \in Elems |-> x.unreg[e] + Count(ul, e)]
+      h == x.hold
+      h2 == CASE a.op = "connect" -> [h EXCEPT ![a.x] = a.x]
+              [] a.op \in {"disconnect", "box_push"} -> [h EXCEPT ![a.x] = 0]
+              [] a.op \in {"hold_move", "hold_assign"} ->
+                   IF SigBug = "hold_move_copies" THEN [h EXCEPT ![a.x] = h[a.x2]]
+                   ELSE [h EXCEPT ![a.x] = h[a.x2], ![a.x2] = 0]
+              [] OTHER -> h
+      b2 == CASE a.op = "box_push" -> [x.box EXCEPT ![a.b] = Append(@, h[a.x])]
+              [] a.op \in {"box_ctor", "box_dtor"} -> [x.box EXCEPT ![a.b] = <<>>]
+              [] OTHER -> x.box
+      l2 == CASE a.op = "box_ctor" -> [x.blive EXCEPT ![a.b] = TRUE]
+              [] a.op = "box_dtor" -> [x.blive EXCEPT ![a.b] = FALSE]
+              [] OTHER -> x.blive
+  IN [comb |-> c2, unreg |-> u2, hold |-> h2, box |-> b2, blive |-> l2]
 
 (* res: the signal has a result type (and therefore a combiner) *)
 CallPre(m, x, L, res) == L \in Lists /\ m.llive[L] /\ (res => x.comb[L])
 
 -----------------------------------------------------------------------------
-(* Judging one recorded call.  c = [init, arg, ret, over, threw, cbs, combs] with
-   cbs = sequence of [c |-> connection slot, arg |-> argument seen, r |-> result],
+(* Judging one recorded call.  c = [init, args, ret, over, threw, cbs, combs] with args = the
+   0, 1 or 2 arguments of the call,
+   cbs = sequence of [c |-> connection, args |-> arguments seen, r |-> result],
    combs = sequence of [a, b, r] (combiner invocations), over = the driver stopped a
    call that invoked more callbacks than there are connection slots, threw = the call ended
    with an exception (no callback of the driver throws one). *)
@@ -94,15 +157,18 @@ CallReasons(m, L, c, res) ==
   SeqReasons("called", got, m.member[L])
   \cup (IF c.over THEN {"call-does-not-end"} ELSE {})
   \cup (IF c.threw THEN {"call-throws"} ELSE {})
-  \cup (IF \A i \in DOMAIN c.cbs : c.cbs[i].arg = c.arg THEN {} ELSE {"callback-argument"})
+  \cup (IF \A i \in DOMAIN c.cbs : c.cbs[i].args = c.args THEN {} ELSE {"callback-argument"})
   \cup (IF res /\ ~c.over /\ ~c.threw /\ ~FoldChainOK(c) THEN {"left-fold"} ELSE {})
 
-UnregReasons(a, unr, got) ==
-  LET want == IF a.op = "disconnect" /\ unr THEN <<a.x>> ELSE <<>> IN
-  IF got = want THEN {}
-  ELSE IF want # <<>> /\ got = <<>> THEN {"unregister-not-run"}
-  ELSE IF want # <<>> /\ Range(got) = Range(want) THEN {"unregister-run-twice"}
-  ELSE {"unregister-of-other-connection"}
+(* the unregister callbacks an operation ran (got) against the connections that died in it, as
+   multisets: "exactly once when that connection dies" *)
+UnregReasons(x, a, unr, got) ==
+  LET want == IF unr THEN Dying(x, a) ELSE <<>>
+      es == Range(got) \cup Range(want)
+  IN IF \A e \in es : Count(got, e) = Count(want, e) THEN {}
+     ELSE IF \E e \in es : Count(got, e) < Count(want, e) THEN {"unregister-not-run"}
+     ELSE IF Range(got) = Range(want) THEN {"unregister-run-twice"}
+     ELSE {"unregister-of-other-connection"}
 
 -----------------------------------------------------------------------------
 (* Model: all histories over small constants (unregister flavour, result type int), with
@@ -128,8 +194,8 @@ CombChain(acc, rs) ==
 ModelCall(m, L, init, arg) ==
   LET who == IF SigBug = "skip_first" /\ m.member[L] # <<>> THEN Tail(m.member[L]) ELSE m.member[L]
       rs == [i \in 1..Len(who) |-> CbVal(who[i], arg)]
-  IN [init |-> init, arg |-> arg, over |-> FALSE, threw |-> FALSE,
-      cbs |-> [i \in 1..Len(who) |-> [c |-> who[i], arg |-> arg, r |-> rs[i]]],
+  IN [init |-> init, args |-> <<arg>>, over |-> FALSE, threw |-> FALSE,
+      cbs |-> [i \in 1..Len(who) |-> [c |-> who[i], args |-> <<arg>>, r |-> rs[i]]],
       combs |-> CombChain(init, rs),
       ret |-> IF SigBug = "fold_right" THEN FoldRight(init, rs) ELSE FoldLeft(init, rs)]
 
@@ -139,6 +205,9 @@ SigAllOps ==
           o \in {"sig_move_ctor", "sig_move_assign"}, L \in Lists, M \in Lists}
   \cup {[BaseOp EXCEPT !.op = "connect", !.x = x, !.l = L] : x \in Elems, L \in Lists}
   \cup {[BaseOp EXCEPT !.op = "disconnect", !.x = x] : x \in Elems}
+  \cup {[BaseOp EXCEPT !.op = o, !.x = x, !.x2 = y] : o \in {"hold_move", "hold_assign"}, x \in Elems, y \in Elems}
+  \cup {[BaseOp EXCEPT !.op = o, !.b = b] : o \in {"box_ctor", "box_dtor"}, b \in Boxes}
+  \cup {[BaseOp EXCEPT !.op = "box_push", !.b = b, !.x = x] : b \in Boxes, x \in Elems}
 
 VARIABLES sx, ever
 svars == <<st, hist, sx, ever>>
@@ -146,8 +215,8 @@ svars == <<st, hist, sx, ever>>
 SInit == Init /\ sx = EmptyX /\ ever = [e \in Elems |-> FALSE]
 
 SNext == \E a \in SigAllOps :
-           /\ SPre(st, a)
-           /\ st' = SEff(st, a)
+           /\ SPre(st, sx, a)
+           /\ st' = SEff(st, sx, a)
            /\ sx' = XEff(sx, a, TRUE)
            /\ ever' = IF a.op = "connect" THEN [ever EXCEPT ![a.x] = TRUE] ELSE ever
            /\ hist' = Append(hist, a)
@@ -159,6 +228,13 @@ SView == <<st, sx, ever>>
 (* a live connection's unregister callback has not run; a dead one's ran exactly once *)
 LawUnregisterOnce ==
   \A e \in Elems : IF st.elive[e] THEN sx.unreg[e] = 0 ELSE (ever[e] => sx.unreg[e] = 1)
+(* a connection is alive exactly while some holder or container owns it, and it has one owner;
+   a container that does not exist owns nothing *)
+Owned == [e \in Elems |-> Cardinality({h \in Elems : sx.hold[h] = e})
+                            + Cardinality({<<b, i>> \in Boxes \X (1..NE) : i <= Len(sx.box[b]) /\ sx.box[b][i] = e})]
+LawOwnership ==
+  /\ \A e \in Elems : Owned[e] = (IF st.elive[e] THEN 1 ELSE 0)
+  /\ \A b \in Boxes : ~sx.blive[b] => sx.box[b] = <<>>
 (* every live connection is called by at most one signal, dead ones by none *)
 LawCalledAreLive == MembersAlive(st) /\ NoDup(st)
 (* what the model's call produces is accepted by the judge, and its result is the LEFT fold:
@@ -170,5 +246,9 @@ LawCallExplained ==
           rs == [i \in 1..Len(c.cbs) |-> c.cbs[i].r]
       IN /\ CallReasons(st, L, c, TRUE) = {}
          /\ c.ret = Pow2(Len(rs)) * 1 + WeightedSum(rs)
+(* ACTION_CONSTRAINT of the script-emission config that generates only histories of the
+   operations the statement of C11 names (no moves of owners, no containers) *)
+InScopeStep == hist' = hist \/ hist'[Len(hist')].op \in {"sig_ctor", "sig_move_ctor", "sig_move_assign", "sig_dtor", "connect", "disconnect"}
+
 SEmit == PrintT("SCRIPT " \o ToJson(hist))
 =============================================================================
